@@ -354,6 +354,31 @@ fn check_faults(c: &FaultCase, cx: &mut Cx) -> Res {
 
 fn check_special(which: &usize, cx: &mut Cx) -> Res {
     cx.nt();
+    if *which >= 14 {
+        // several names for one version on the tagged commit (build metadata, letter case)
+        let (names, fmt): (&[&str], &str) = match which {
+            14 => (&["v1.4.0+linux", "v1.4.0+macos", "v1.4.0+win32"], "semver"),
+            15 => (&["1.0rc1", "1.0RC1", "1.0Rc1"], "pep440"),
+            16 => (&["1.2.3", "v1.2.3", "1.2.3+a", "1.2.3+b"], "auto"),
+            _ => (&["2.0.0-rc.1+x", "2.0.0-rc.1+y"], "semver"),
+        };
+        let names: Vec<String> = names.iter().map(|s| s.to_string()).collect();
+        let (repo, made) = match crate::gitlab::repo_with_tags(&names, None, (*which % 2) as u8) {
+            Ok(x) => x,
+            Err(e) => {
+                infra(format!("cannot build the repository: {e}"));
+                return Ok(());
+            }
+        };
+        for sub in ["version", "flow"] {
+            let o = proc::run(&proc::Spec { args: cli::sv(&[sub, "-C", &repo.path(), "--input-format", fmt]), ..Default::default() });
+            let what = format!("{sub} on a commit tagged {made:?} ({fmt})");
+            cx.note(|| format!("{what}: exit {:?}, stdout {:?}", o.code, o.out_str()));
+            contract(&o, &what)?;
+            ensure!(o.code == Some(0), "{what}: expected a version, got exit {:?}: {}", o.code, o.err_str().trim());
+        }
+        return Ok(());
+    }
     let root = std::env::var("VERIF_ROOT").unwrap_or_else(|_| "/verif".into());
     let dir = std::path::Path::new(&root).join(".cache").join("tmp").join(format!("special-{}-{}", std::process::id(), which));
     let _ = std::fs::remove_dir_all(&dir);
@@ -517,8 +542,8 @@ pub fn property() -> Property {
     )
     .shrink_iters(20);
     let deep = RandomSub::<DeepCase>::new("deep-templates", (320, 6_000), |_| deep_case(), check_deep).shrink_iters(60).floor(0.3);
-    let special = EnumSub::<usize>::new("special-states", "8 environment faults (-C not a repository / nonexistent, repository without commits (version, flow), git missing from PATH (two ways), dangling gitdir file, corrupt HEAD) and 6 unusual healthy repositories (shallow clones with the tag inside / outside the history, with -v, flow; a linked work tree; a bare clone)", |_t, shard, n, visit| {
-        for i in 0..14usize {
+    let special = EnumSub::<usize>::new("special-states", "8 environment faults (-C not a repository / nonexistent, repository without commits (version, flow), git missing from PATH (two ways), dangling gitdir file, corrupt HEAD) and 6 unusual healthy repositories (shallow clones with the tag inside / outside the history, with -v, flow; a linked work tree; a bare clone; four commits carrying several names of one version)", |_t, shard, n, visit| {
+        for i in 0..18usize {
             if i % n == shard && !visit(&i) {
                 return;
             }
